@@ -206,6 +206,8 @@ def main():
             log("replay file names a broken obligation, not an input: re-running the whole check")
     if not cases and not args.replay or (args.replay and not cases):
         cases = mod.gen(vlib.Rng(seed).fork(prop), tier, info)
+    t_prep = time.time() - t0
+    t_h0 = time.time()
     if h_ok and corr_ok_build:
         try:
             vlib.run_cases_on_harness(cases)
@@ -218,6 +220,7 @@ def main():
         if all(c.impl is not None for c in cases):
             failures, errors = vlib.eval_shards(prop, "Corr." + prop, cases, imports=getattr(mod, "IMPORTS", ""),
                                                 per_shard=getattr(mod, "PER_SHARD", 60), case_type=getattr(mod, "CASE_TYPE", "(pcase * pout)"))
+    t_eval = time.time() - t_h0
     if hasattr(mod, "extra"):
         try:
             extra_cov, extra_problems, extra_viol = mod.extra(info, cases, vlib)
@@ -318,6 +321,7 @@ def main():
         known_finding_cases=sum(len(v) for v in known_hits.values()),
         translator=tr_msg, samples=samples or [dict(note="no cases")],
     )
+    cov["phase_seconds"] = dict(prepare=round(t_prep, 1), harness_and_coq_eval=round(t_eval, 1))
     cov.update(extra_cov or {})
     ev = dict(property_id=prop, tier=tier, seed=seed, level="proof", coverage=cov,
               assumptions=getattr(mod, "ASSUMPTIONS", []), wall_s=round(time.time() - t0, 2), violations=violations)
